@@ -442,13 +442,14 @@ func runProperty(p *Property, o Options) int {
 		// a proof-level claim requires every obligation discharged
 		level = "other"
 	}
+	assumptions := append([]string{"paths are syntactic (no infeasible-path pruning); reflection, unsafe and linkname are outside the analysed semantics unless a rule says otherwise"}, p.Assumptions...)
 	ev := map[string]any{
 		"property_id": p.ID,
 		"tier":        o.Tier,
 		"seed":        seed,
 		"level":       level,
 		"coverage":    coverage,
-		"assumptions": p.Assumptions,
+		"assumptions": assumptions,
 		"wall_s":      time.Since(t0).Seconds(),
 		"violations":  nViol,
 	}
